@@ -69,7 +69,7 @@ def run(ctx, mode='C02'):
         ins = pygen.render_instrumented(body, scope)
         oracle = rc.Oracle(ins, scope, cont=c03)
         runs, exhaustive = rc.enumerate_decisions(oracle, cap)
-        ctx.histogram('exhaustive', exhaustive)
+        ctx.histogram('decision_enumeration_exhaustive', exhaustive)
         if c03:
             for b in direct_c03(obs, reads, runs, exhaustive):
                 direct_bad.append((idx, b, None))
